@@ -1237,3 +1237,20 @@ Qed.
 Example gcxs_reduce_rows_nonvacuous :
   rmap (fun a => (tdt a, nth 399 (tv a) 0)) (m_gcxs_reduce_rows (DInt u8) (DInt u8) 400 3 113) = Ok (DInt u16, 399).
 Proof. vm_compute. reflexivity. Qed.
+
+(* ------------------------------------------------------------------ broadcasting: positions along a grown axis are
+   exact for every coordinate dtype of the operand, whatever the new extent *)
+Theorem broadcast_positions_exact_proof t n :
+  n < 2 ^ 63 ->
+  tv (m_broadcast_positions (DInt t) n) = zrange_ n /\
+  m_broadcast_positions (DInt t) n = m_broadcast_positions DInf n.
+Proof.
+  intros Hn. split; [|reflexivity].
+  unfold m_broadcast_positions, s_expanded_coords_dtype, assign_into, astype. cbn [tv].
+  apply map_wr_id; [cbn; lia|]. eapply Forall_impl; [|apply zrange__bounds]. cbn beta. intros v Hv.
+  apply fits_iff. cbn. lia.
+Qed.
+
+Example broadcast_positions_nonvacuous :
+  nth 256 (tv (m_broadcast_positions (DInt u8) 258)) 0 = 256.
+Proof. vm_compute. reflexivity. Qed.
